@@ -104,7 +104,7 @@ def oracle_c04(case, impl, model):
 
 
 # ---------------------------------------------------------------- C02: grammar-derived heads with expected view
-def gen_rfc_head(r):
+def gen_rfc_head(r, force_fr=None):
     m = r.choice(G.METHODS) if r.random() < 0.7 else G.rstr(r, bytes(sorted(ALPHA)), 1 + G.rlen(r) % 14)
     form = r.choice(["origin", "origin", "absolute", "absolute", "abs-nopath", "authority", "asterisk"])
     q = G.rstr(r, G.QCHAR, G.rlen(r)) if r.random() < 0.5 else None
@@ -136,6 +136,8 @@ def gen_rfc_head(r):
     fr = r.choice([[], [], [(b"Content-Length", b" 0")], [(b"content-length", b"42 ")], [(b"Content-Length", b"7"), (b"CONTENT-LENGTH", b"\t7")],
                    [(b"Transfer-Encoding", b" chunked")], [(b"Transfer-Encoding", b"gzip"), (b"transfer-encoding", b"deflate , Chunked ")],
                    [(b"Transfer-Encoding", b"gzip,chunked,"), (b"Content-Length", b"18446744073709551615")]])
+    if force_fr is not None:
+        fr = force_fr
     pos = 0
     for f in fr:  # keep the relative order of the framing fields (the final coding is in the LAST TE line)
         pos = r.randrange(pos, len(fields) + 1)
@@ -387,6 +389,12 @@ def run_parse(pid, oracle):
             for _ in range(n):
                 b, e = gen_rfc_head(r)
                 exps.append(e); ls.append("REQ " + hx(b))
+            # Content-Length numerals of every width (1*DIGIT: leading zeros, no length limit) up to u64::MAX
+            from gen.common import cl_numeral_grid
+            for v in cl_numeral_grid():
+                if v.isdigit() and int(v) < 2 ** 64:
+                    b, e = gen_rfc_head(r, force_fr=[(r.choice([b"Content-Length", b"content-length"]), r.choice([b"", b" ", b"\t "]) + v + r.choice([b"", b" "]))])
+                    exps.append(e); ls.append("REQ " + hx(b))
             impl, model = diff_run(o, ctx, ls, nontrivial=nontriv, tags=lambda c, a: "rfc-head:" + a.split()[0])
             for c, a, e in zip(ls, impl, exps):
                 why = check_c02(e, a)
